@@ -224,6 +224,7 @@ def r3(ctx):
 
 
 RULES = {"C05.R1": r1, "C05.R2": r2, "C05.R3": r3,
+         "C05.RG": lambda ctx: __import__("rules.foundations", fromlist=["x"]).no_global_state(ctx, "C05.RG"),
          # "... and the serialised form decodes again": what the writers read through the accessors is what is there
          # (an accessor that hides an entry shortens the written table under the tokens' indices), and the data URL
          # written is one the reader accepts
